@@ -158,7 +158,7 @@ func (in *Interp) threadMain(t *Thread) {
 				}
 			case targetPanic:
 				in.run.noteUncaughtPanic(in, t, x)
-				in.run.setAbort(abortRun{kind: "panic", msg: x.msg + " " + fmtValue(x.v)})
+				in.run.setAbort(abortRun{kind: "panic", msg: x.msg + " " + fmtValue(x.v) + " @ " + in.run.panicPos})
 			default:
 				in.run.setAbort(abortRun{kind: "internal", msg: fmt.Sprintf("%v\n%s", r, stack())})
 			}
